@@ -32,6 +32,10 @@ func refYAML(c refCase, declOrder int) string {
 	b.WriteString("tasks:\n")
 	for _, t := range []string{"t1", "t2", "t3"} {
 		fmt.Fprintf(&b, "  %s:\n    command: [\"echo %s\"]\n", t, t)
+		if t == "t2" {
+			// (a task is referred to by its key; `name:` is what it is called in the output)
+			b.WriteString("    name: display-name-of-t2\n")
+		}
 	}
 	b.WriteString("pipelines:\n")
 	names := []string{"p1", "p2", "p3", "p4"}
